@@ -160,6 +160,48 @@ static int tuple_cat_reference_checks() {
 	return n;
 }
 
+// apply(f, tuple): the functor receives references to the tuple's OWN elements -- for the rvalue overload too (like
+// std::apply: std::get<I>(std::move(t))...).  A functor that only binds the references (records addresses, consumes
+// nothing) must see &get<i>(t), must not cause any element to be constructed or moved, and t is unchanged afterwards
+// (move-only handle and an element with an observable moved-from state).  Side by side with std::apply on std::tuple.
+static int tuple_apply_identity_checks() {
+	int n = 0;
+	using M = El<KM, 0>; using C = El<KF, 1>;
+	{	// rvalue overload
+		frg::tuple<M, C, int> t{M(11), C(12), 13}; std::tuple<M, C, int> st{M(11), C(12), 13};
+		const void *got[3] = {nullptr, nullptr, nullptr}, *sgot[3] = {nullptr, nullptr, nullptr};
+		long before = vh::g_life.ctors;
+		int r = frg::apply([&](M &&a, C &&b, int &&c) { got[0] = &a; got[1] = &b; got[2] = &c; return 5; }, std::move(t));
+		long made = vh::g_life.ctors - before;
+		int sr = std::apply([&](M &&a, C &&b, int &&c) { sgot[0] = &a; sgot[1] = &b; sgot[2] = &c; return 5; }, std::move(st));
+		bool fid = got[0] == &t.get<0>() && got[1] == &t.get<1>() && got[2] == &t.get<2>();
+		bool sid = sgot[0] == &std::get<0>(st) && sgot[1] == &std::get<1>(st) && sgot[2] == &std::get<2>(st);
+		n++; if(fid != sid) vh::oracle("tuple", "apply(f, tuple&&): the functor's references %s the tuple's own elements, std::apply's %s", fid ? "are" : "are not", sid ? "are" : "are not");
+		n++; if(made != 0) vh::oracle("tuple", "apply(f, tuple&&) with a functor that only binds references constructed %ld element object(s) (std::apply: none)", made);
+		n++; if(t.get<0>().moved != std::get<0>(st).moved || t.get<1>().moved != std::get<1>(st).moved || t.get<0>().v != 11 || t.get<1>().v != 12 || t.get<2>() != 13)
+			vh::oracle("tuple", "apply(f, tuple&&) with a functor that consumes nothing left the tuple moved-from (std::apply leaves it alone)");
+		n++; if(r != sr) vh::oracle("tuple", "apply(f, tuple&&) returned a wrong result");
+		// a functor that does consume one element: exactly that element is moved from
+		frg::tuple<M, C> u{M(21), C(22)};
+		uint64_t taken = frg::apply([](M &&a, C &&) { M x(std::move(a)); return x.v; }, std::move(u));
+		n++; if(taken != 21 || !u.get<0>().moved || u.get<1>().moved) vh::oracle("tuple", "apply(f, tuple&&): consuming element 0 must move exactly element 0 out of the tuple");
+	}
+	{	// const& overload, also reached with a non-const lvalue (tuple.hpp has no tuple& overload)
+		frg::tuple<M, C, int> t{M(31), C(32), 33}; std::tuple<M, C, int> st{M(31), C(32), 33};
+		const void *got[3], *sgot[3];
+		long before = vh::g_life.ctors;
+		frg::apply([&](const M &a, const C &b, const int &c) { got[0] = &a; got[1] = &b; got[2] = &c; return 0; }, std::as_const(t));
+		std::apply([&](const M &a, const C &b, const int &c) { sgot[0] = &a; sgot[1] = &b; sgot[2] = &c; return 0; }, std::as_const(st));
+		bool fid = got[0] == &t.get<0>() && got[1] == &t.get<1>() && got[2] == &t.get<2>();
+		bool sid = sgot[0] == &std::get<0>(st) && sgot[1] == &std::get<1>(st) && sgot[2] == &std::get<2>(st);
+		n++; if(fid != sid) vh::oracle("tuple", "apply(f, const tuple&): the functor's references are not the tuple's own elements");
+		frg::apply([&](const M &a, const C &b, const int &c) { got[0] = &a; got[1] = &b; got[2] = &c; return 0; }, t);
+		n++; if(got[0] != &t.get<0>() || got[1] != &t.get<1>() || got[2] != &t.get<2>()) vh::oracle("tuple", "apply(f, tuple&): the functor's references are not the tuple's own elements");
+		n++; if(vh::g_life.ctors != before || t.get<0>().moved || t.get<1>().moved) vh::oracle("tuple", "apply(f, const tuple&) constructed or moved element objects");
+	}
+	return n;
+}
+
 // run-time checks that do not depend on the script; returns the number of checks made
 static int tuple_fixed_checks() {
 	int n = 0;
@@ -192,6 +234,7 @@ static int tuple_fixed_checks() {
 	}
 	n += tuple_conversion_checks();
 	n += tuple_cat_reference_checks();
+	n += tuple_apply_identity_checks();
 	g_log_on = saved;
 	return n;
 }
